@@ -391,6 +391,10 @@ def proof_stage(chk, coq_dirs, build_dir, qflags, requires, theorems, obligation
                     ok_all = False
                     chk.broken_tie("pinned-statement:" + t, "statement is now: " + stm.get(t, "?"))
             chk.coverage["theorem_statements"] = stm
+    if ok_all and getattr(chk, "tier", "quick") == "thorough":
+        mods = [r for r in requires if not r.startswith("Coq.")]
+        if not coqchk_stage(chk, coq_dirs, build_dir, qflags, mods):
+            ok_all = False
     chk.coverage["obligations"] = max(n_stmt, 1)
     chk.coverage["discharged"] = n_qed if ok_all else 0
     chk.coverage["theorems"] = theorems
@@ -399,6 +403,40 @@ def proof_stage(chk, coq_dirs, build_dir, qflags, requires, theorems, obligation
         NCPU, ", ".join(os.path.relpath(d, VERIF) for d in coq_dirs), ", ".join(theorems))
     chk.coverage["trusted_base"] = trusted
     return ok_all
+
+
+def coqchk_stage(chk, coq_dirs, build_dir, qflags, modules):
+    """Independent re-check of the compiled development with coqchk (thorough tier): every module the
+    property theorems live in, and everything they depend on, is re-checked by the stand-alone checker;
+    its context summary must list no axiom, no type-in-type, no unsafe fixpoint, no assumed positivity.
+    The result is cached by the hash of the .vo files."""
+    import glob as _glob
+    h = hashlib.sha256()
+    for d in coq_dirs:
+        for f in sorted(_glob.glob(os.path.join(d, "*.vo"))):
+            h.update(f.encode())
+            with open(f, "rb") as fh:
+                h.update(fh.read())
+    h.update(" ".join(modules).encode())
+    cdir = os.path.join(VERIF, ".cache", "coqchk")
+    os.makedirs(cdir, exist_ok=True)
+    cf = os.path.join(cdir, h.hexdigest()[:24] + ".txt")
+    if os.path.exists(cf):
+        out = open(cf).read()
+        rc = 0
+    else:
+        rc, out = sh("cd %s && coqchk -o -silent %s %s 2>&1" % (build_dir, qflags, " ".join(modules)), timeout=3000)
+        if rc == 0:
+            with open(cf, "w") as fh:
+                fh.write(out)
+    summary = out[out.find("CONTEXT SUMMARY"):] if "CONTEXT SUMMARY" in out else out[-1500:]
+    fields = dict(re.findall(r"\* ([^:\n]+):\s*([^\n]*)", summary))
+    okc = rc == 0 and fields.get("Axioms", "?").strip() == "<none>" and all(
+        v.strip() == "<none>" for k, v in fields.items() if k.startswith(("Constants/Inductives relying", "Inductives whose positivity")))
+    chk.coverage["coqchk"] = {"cmd": "coqchk -o -silent %s %s" % (qflags, " ".join(modules)), "summary": {k.strip(): v.strip() for k, v in fields.items()}, "ok": okc}
+    if not okc:
+        chk.broken_tie("coqchk", summary[-1500:])
+    return okc
 
 
 def splitmix64(state):
